@@ -788,6 +788,8 @@ class HeavyHitters:
         -------
         int
         """
+        # add() only keeps the first max_key_len bytes of a key, do the same here
+        key = key[: int(self.max_key_len)]
         key_len = len(key)
         max_count = _max_count(
             self.lhh,
